@@ -252,7 +252,21 @@ def d4(cx: Cx, ob: Ob) -> None:
         ob.site(f"{where(fn, ev.line)} {fn.qualname}", f"[{show(key)[:50]}].add({show(val)[:40]})")
         parts = concat_parts(key)
         R = parts[0][1] if parts and len(parts) == 2 and op(parts[0]) == "item" else None
-        if R is None or parts[1] != d or not is_const(parts[0][2], 0):
+        present = any(g.kind == "guard" and g.a == ("cmp", "in", d, uri) and g.b is True for g in ctx.guards)
+        alt = None
+        if parts and len(parts) == 2 and all(op(x) == "item" for x in parts) and parts[0][1] == parts[1][1] and is_const(parts[0][2], 0) and is_const(parts[1][2], 1) and callee_name(parts[0][1]) == "rpartition" and present:
+            # head + middle of rpartition: the middle IS the delimiter where the delimiter occurs
+            alt = parts[0][1]
+        if op(key) == "slice" and key[1] == uri and (is_const(key[2], None) or is_const(key[2], 0)) and is_const(key[4], None) and op(key[3]) == "bin" and key[3][1] == "-" and key[3][2] == ("call", ("builtin", "len"), (uri,), ()):
+            # everything before the tail: uri[: len(uri) - len(tail)]
+            tl = key[3][3]
+            if op(tl) == "call" and tl[1] == ("builtin", "len") and len(tl[2]) == 1 and op(tl[2][0]) == "item" and callee_name(tl[2][0][1]) in ("rsplit", "rpartition") and present:
+                Rt = tl[2][0][1]
+                if is_const(tl[2][0][2], 2 if callee_name(Rt) == "rpartition" else 1):
+                    alt = Rt
+        if alt is not None:
+            R = alt
+        elif R is None or parts[1] != d or not is_const(parts[0][2], 0):
             ob.violate(fn.qualname, where(fn, ev.line), f"the URI prefix stored is `{show(key)[:60]}`, not <head of the split> + delimiter: learned prefixes do not end in the delimiter", detail="key-shape")
             continue
         if not (op(R) == "call" and op(R[1]) == "attr" and R[1][1] == uri and R[2][:1] == (d,)):
@@ -293,21 +307,18 @@ def d5(cx: Cx, ob: Ob) -> None:
         n += 1
         uri = ctx.loops[0].a
         ob.site(f"{where(fn, ev.line)} {fn.qualname}", "store guarded by the known-URI skip")
+        from ..rules import guard_atoms
+
         ok = False
-        for g in ctx.guards:
-            if g.kind != "guard":
-                continue
-            atoms = g.a[1] if (op(g.a) == "and" and g.b is False) else (g.a,)
-            if op(g.a) == "or" and g.b is False:
-                # not (A or B): every disjunct is false; a disjunct `converter is not None and is_uri(uri)` counts
-                atoms = tuple(y for x in g.a[1] for y in (x[1] if op(x) == "and" else (x,)))
-            for a in atoms:
-                if g.b is False and op(a) == "call" and op(a[1]) == "attr" and a[1][1] == conv and a[1][2] == "is_uri" and a[2] == (uri,):
-                    ok = True
-                # `converter.compress(uri) is None` holds (canonical guard form) / `... is not None` fails
-                if op(a) == "cmp" and is_const(a[3], None) and op(a[2]) == "call" and op(a[2][1]) == "attr" and a[2][1][1] == conv and a[2][1][2] in ("compress", "parse_uri") and a[2][2][:1] == (uri,):
-                    if (a[1] in ("is", "==") and g.b is True) or (a[1] in ("is not", "!=") and g.b is False):
-                        ok = True
+        for a, pol in guard_atoms(ctx.guards):
+            # no converter was supplied: nothing is known, nothing to skip
+            if pol is True and op(a) == "cmp" and a[1] == "is" and a[2] == conv and is_const(a[3], None):
+                ok = True
+            if pol is False and op(a) == "call" and op(a[1]) == "attr" and a[1][1] == conv and a[1][2] == "is_uri" and a[2] == (uri,):
+                ok = True
+            # `converter.compress(uri) is None` holds
+            if pol is True and op(a) == "cmp" and a[1] in ("is", "==") and is_const(a[3], None) and op(a[2]) == "call" and op(a[2][1]) == "attr" and a[2][1][1] == conv and a[2][1][2] in ("compress", "parse_uri") and a[2][2][:1] == (uri,):
+                ok = True
         if not ok:
             ob.violate(
                 fn.qualname,
